@@ -159,6 +159,10 @@ AltsOf(p, k, own, v) ==
   \* the object wholly in the NEXT fork version b (every time field of it), signed with b (valid) / with a (Bad)
   \cup (IF ForkKind(k) THEN {A("laterFork", 0, ""), A("laterForkBad", 0, "")} ELSE {})
   \cup (IF p = "peer" THEN {A("idx0", 0, ""), A("idxN1", 0, ""), A("future", 0, ""), A("futureEdge", 0, "")}
+                           \* an out-of-range claimed index CONGRUENT to the signing share's own index modulo 2^8 / 2^16 / 2^32
+                           \* (the wire field is an int32: j in -2..4 selects own - 2*256, own - 256, own + 256, own + 2*256,
+                           \* own + 65536, own - 65536, own + 2^24); every narrowing of the index maps it onto a real share
+                           \cup {A("idxWrap", j, "") : j \in 1..7}
                            \* the wire-supplied duty slot is 2^63, 2^63 + the current slot, 2^64 - 1
                            \cup {A("hugeSlot", 0, x) : x \in {"2p63", "2p63now", "max"}}
                            \cup {A("idxOther", j, "") : j \in (1..N) \ {own}}
@@ -327,6 +331,7 @@ Alter(e, c) ==
     [] c.alt = "innerProof" -> [e EXCEPT !.inner = FALSE]
     [] c.alt = "idx0" -> [e EXCEPT !.idx = 0]
     [] c.alt = "idxN1" -> [e EXCEPT !.idx = N + 1]
+    [] c.alt = "idxWrap" -> [e EXCEPT !.idx = N + 1 + c.ai]      \* some index outside 1..N: the abstraction keeps no more
     [] c.alt = "idxOther" -> [e EXCEPT !.idx = c.ai]
     [] c.alt = "dutyType" -> [e EXCEPT !.ddom = DomOfDuty(c.ai)]
     [] OTHER -> e
